@@ -37,6 +37,28 @@ CLAIMED = {
                   "projection-level independence checked by TLC on recorded traces"),
 }
 
+CLAIMED["C05"] = dict(
+    text="Model checking: the WKTRender specification (canonical token sequence of a geometry tree, from the OGC "
+         "grammar) and the WKTParser specification (reference reader) are shown to agree by TLC on every tree of "
+         "the bounded model; the real encoder's text, tokenised independently, must equal Render(g), the library's "
+         "parser must read it back to g (coordinate identity by bit pattern), and every spelling variant "
+         "(case, white space/CRLF, attached/detached suffix, exponent notation, parenthesised multipoint members) "
+         "must parse to g - all decided by TLC on the recorded observations.",
+    ref="DESIGN.md 3.4, 4-C05",
+    technique="TLA+ specs (WKTRender, WKTParser) + TLC; enumeration of geometry trees; observation checking of "
+              "encoder output and parses by TLC")
+CLAIMED["C06"] = dict(
+    text="Model checking of a token-level transcription of the parser (grammar as pushdown recogniser + the layout "
+         "stack with all panic sites as values): TLC checks NoPanic/StackNonEmpty/AcceptedAtTop on the model and "
+         "enumerates ALL grammatical token strings up to the bound (full alphabet) plus family alphabets to 12-15 "
+         "tokens; each string is rendered with rotating spellings and parsed by the real parser with the verif hook "
+         "on; TLC requires the same verdict, exactly the model's sequence of validator events with identical layout "
+         "stacks, the same layout and geometry tree as the reference reader, a uniform layout, and an equal result "
+         "after re-encoding and parsing again.",
+    ref="DESIGN.md 3.4, 4-C06, 5",
+    technique="TLA+ spec mirroring the parser (WKTParser) + TLC exhaustive string enumeration; trace validation of "
+              "hook events (layout-stack operations) against the spec's log")
+
 NOT_YET = {}
 
 
@@ -81,7 +103,7 @@ def main():
     print("MANIFEST.json: %d checks, %d not_applicable" % (len(checks), len(na)))
 
 
-HOOK_COMMITS = []
+HOOK_COMMITS = ["6f9adbc"]
 
 if __name__ == "__main__":
     main()
